@@ -28,6 +28,7 @@ SHARED = {
     "GenH": ["C01", "C02", "C08", "C09", "C17"],
     "GenFill": ["C01", "C02", "C07", "C08", "C17"],
     "GenHorner": ["C03", "C08", "C09", "C15"],
+    "GenCPow": ["C14"],
 }
 
 
